@@ -377,11 +377,14 @@ def check_threshold_optimizer(case):
     if a != b:
         raise PropertyViolation(f"ThresholdOptimizer({case['constraint']}): interpolation_dict differs between containers {case['kinds']}/{case['plans']} (y named {case['yname']!r}) and plain ndarrays: {b} vs {a}")
     pa = ref._pmf_predict(Xr, sensitive_features=np.asarray(g))
-    pb = got._pmf_predict(Xg, sensitive_features=gen.wrap_vector(case["kinds"][1], g, case["plans"][3], name="s"))
+    # at predict time the groups arrive in yet another container (also object-dtype arrays / Series): the rule of a
+    # group is found whatever container carried its label at fit time
+    pk = case.get("predict_kind") or case["kinds"][1]
+    pb = got._pmf_predict(Xg, sensitive_features=gen.wrap_vector(pk, g, case["plans"][3], name="s"))
     if not np.allclose(pa, pb, rtol=0, atol=1e-12):
         raise PropertyViolation("ThresholdOptimizer: _pmf_predict differs between containers and plain ndarrays")
     ya = ref.predict(Xr, sensitive_features=np.asarray(g), random_state=case["seed"])
-    yb = got.predict(Xg, sensitive_features=gen.wrap_vector(case["kinds"][1], g, case["plans"][3], name="s"), random_state=case["seed"])
+    yb = got.predict(Xg, sensitive_features=gen.wrap_vector(pk, g, case["plans"][3], name="s"), random_state=case["seed"])
     if not np.array_equal(np.asarray(ya), np.asarray(yb)):
         raise PropertyViolation("ThresholdOptimizer: predict with a fixed seed differs between containers and plain ndarrays")
     # group-label bijection: the set of rule keys is renamed and the fitted rule is equally good.  (The rules
@@ -406,6 +409,8 @@ def check_threshold_optimizer(case):
         tags.append("nt")
     if case["kinds"][0] == "dataframe":
         tags.append("y_dataframe")
+    if pk != case["kinds"][1]:
+        tags.append("predict_other_container")
     return tags
 
 
@@ -513,7 +518,7 @@ def _moment_cases(draw):
         "levels": draw(st.lists(st.integers(0, 3), min_size=n, max_size=n)),
         "h": draw(st.lists(st.sampled_from([0.0, 1.0, 0.25, 0.5]), min_size=n, max_size=n)),
         "lam": draw(st.lists(st.sampled_from([0.0, 0.5, 1.0, 2.5]), min_size=3, max_size=7)),
-        "kinds": [draw(gen.vector_kind) for _ in range(3)],
+        "kinds": [draw(gen.vector_kind), draw(st.sampled_from(gen.VECTOR_KINDS + ["ndarray_object", "series_object"])), draw(gen.vector_kind)],
         "plans": [draw(gen.index_plan) for _ in range(4)],
         "x_kind": draw(st.sampled_from(["ndarray", "dataframe"])),
         "perm": list(draw(st.permutations(range(n)))),
@@ -556,6 +561,7 @@ def _to_cases(draw):
         "x_kind": draw(st.sampled_from(["ndarray", "dataframe"])),
         "yname": draw(st.sampled_from(["lab", "y", "0", "col"])),
         "y_dtype": draw(st.sampled_from(["int", "int", "float", "bool"])),
+        "predict_kind": draw(st.sampled_from([None, "list", "ndarray", "series", "ndarray_object", "series_object", "dataframe"])),
         "seed": draw(st.integers(0, 1000)),
         "shift": draw(st.integers(1, 2)),
     }
